@@ -10,6 +10,7 @@ tie:    harness/c16_rows.cc runs seeded lock-step histories on CO_Tree, Sparse_R
 A failing history is shrunk (ddmin over its operation list, re-executed by `c16_rows --replay`).
 """
 import collections, hashlib, os, re, subprocess, time
+from . import c16_rebalance
 
 LEVEL = "proof"
 
@@ -124,6 +125,8 @@ def replay(ctx, path):
     h = ctx.compile_harness("c16_rows.cc")
     R = Runner(ctx, h, drv, ctx.workdir())
     obj = json.load(open(path))
+    if obj.get("kind") == "reb":
+        return c16_rebalance.replay(ctx, obj, path)
     ops = obj.get("ops", [])
     print("property=C16 what=%s" % obj.get("what", "-")[:300])
     mm, jpath = R.replay(ops, "user-replay")
@@ -154,6 +157,7 @@ def run(ctx):
     t0 = time.time()
     ctx.ensure_ppl()
     broken = ctx.prove(["PPLV.Props.C16"])
+    broken += c16_rebalance.run(ctx)        # stage 2: rebalance / compact / redistribute / rebuild (proof + identical-layout replay)
     if ctx.tier == "thorough":
         broken += ctx.leanchecker(["PPLV.Props.C16"])
     drv = ctx.ensure_pplv("pplv_c16")
